@@ -158,6 +158,26 @@ pub fn run_xsort(args: &[Sx]) -> Sx {
         let dir = tempfile::tempdir_in(scratch()).expect("glue: tempdir");
         let sorter = builder(&args[0], &args[1], &args[2], dir.path()).build().expect("glue: build sorter");
         let cmp = move |x: &(u64, u64, Vec<u8>), y: &(u64, u64, Vec<u8>)| -> Ordering { if rev { y.0.cmp(&x.0) } else { x.0.cmp(&y.0) } };
+        if args.len() > 5 && args[5].atom() == "ord" {
+            // ExternalSorter::sort (T: Ord) instead of sort_by: the key is wrapped so that Ord looks at the key only
+            #[derive(serde::Serialize, serde::Deserialize, Clone, Debug)]
+            struct K(u64, u64, Vec<u8>);
+            impl PartialEq for K { fn eq(&self, o: &K) -> bool { self.0 == o.0 } }
+            impl Eq for K {}
+            impl PartialOrd for K { fn partial_cmp(&self, o: &K) -> Option<Ordering> { Some(self.cmp(o)) } }
+            impl Ord for K { fn cmp(&self, o: &K) -> Ordering { self.0.cmp(&o.0) } }
+            let it = sorter.sort(items.into_iter().map(|x| K(x.0, x.1, x.2))).expect("sort returned an error");
+            emit(Sx::L(vec![a("len"), a(it.len())]));
+            let mut out = Vec::new();
+            for r in it {
+                match r {
+                    Ok(K(k, id, p)) => { if pads.get(&id).map(|n| pad(id, *n)) != Some(p) { emit(a("ORACLE-FAIL:payload-altered")); } out.push(Sx::L(vec![a("ok"), a(k), a(id)])) }
+                    Err(_) => out.push(Sx::L(vec![a("err"), a(0)])),
+                }
+            }
+            emit(tag("out", out));
+            return;
+        }
         let it = sorter.sort_by(items, cmp).expect("sort_by returned an error");
         emit(Sx::L(vec![a("len"), a(it.len())]));
         let mut out = Vec::new();
